@@ -120,7 +120,7 @@ WriteChunk == /\ ph = "stream" /\ k <= Len(v.chunks)
               /\ UNCHANGED <<v, stored>>
 \* Close: declared = written, checksum, then the object goes to the storage
 CloseStream == /\ ph = "stream" /\ k > Len(v.chunks)
-               /\ LET good == v.decl = written /\ hashed /\ written = v.len /\ v.mut # "checksum" IN
+               /\ LET good == v.decl = written /\ hashed /\ written = v.len /\ v.mut \notin {"checksum", "ecchecksum"} IN
                   /\ res' = IF good THEN "ok" ELSE "error"
                   /\ stored' = good
                /\ ph' = "closed"
